@@ -1,16 +1,16 @@
 SPECIFICATION Spec
 CONSTANTS
-  Lens = {2}
-  NCodes = 3
-  MaxDefs = 3
+  Lens = {1}
+  NCodes = 1
+  MaxDefs = 2
   Dev_h34 = FALSE
   Dev_h35 = FALSE
   Emit = FALSE
   KnownClasses = {}
   Rich = FALSE
-  Dev_gram = TRUE
-  SingleRangeStr = FALSE
-  Styles <- CanonOnly
-  BaseVal <- BaseEdge
+  Dev_gram = FALSE
+  SingleRangeStr = TRUE
+  Styles <- FontOnly
+  BaseVal <- BaseMid
 INVARIANTS Refines SegmentationOK MapsOK DomainOK BuildForm
 CHECK_DEADLOCK FALSE
